@@ -61,6 +61,11 @@ Proof. destruct a, b; simpl; split; intro E; try reflexivity; try discriminate. 
 Lemma nonempty_pem : forall (p : pem), match p with [] => False | _ => True end -> p <> [].
 Proof. destruct p; simpl; intros; congruence. Qed.
 
+Lemma valid_at_iff : forall now c, valid_at now c = true <-> (c_nb c <= now <= c_na c)%Z.
+Proof.
+  intros now c. unfold valid_at. rewrite andb_true_iff, !Z.leb_le. tauto.
+Qed.
+
 Section Contract.
   Variable now : Z.
   Variable H : handshake.
@@ -244,7 +249,65 @@ Section Contract.
         destruct (dtls_serve H cfg cl); [|discriminate]. subst k. discriminate.
       + subst k. rewrite Hkind. reflexivity.
   Qed.
+
+  (* -- "within its validity period" is exact: a certificate that misses `now` by any amount, on
+     either side, is refused - by the TLS exporter, the DTLS exporter and the TLS collector that
+     authenticates clients *)
+  Lemma exporter_refuses_outside_validity : forall i t srv sc,
+    ei_tls i = Some t -> ei_proto i = "tcp" \/ ei_proto i = "udp" ->
+    peer_cert srv = Some sc -> (now < c_nb sc \/ c_na sc < now)%Z ->
+    forall c, init_exporting_process H i srv <> ROk c.
+  Proof.
+    intros i t srv sc Et Ep Hpc Hout c Hi.
+    assert (Hv : valid_at now sc = true).
+    { destruct Ep as [Ep|Ep].
+      - destruct (exporter_tls_authenticates _ _ _ _ Et Ep Hi) as (v & sc' & _ & _ & _ & _ & Hpc' & _ & Hva & _).
+        congruence.
+      - destruct (exporter_dtls_verifies _ _ _ _ Et Ep Hi) as (_ & _ & sc' & Hpc' & _ & Hva & _). congruence. }
+    apply valid_at_iff in Hv. lia.
+  Qed.
+
+  Lemma collector_refuses_outside_validity : forall c p cl cc,
+    ci_enc c = true -> ci_proto c = "tcp" -> ci_ca c = Some p ->
+    peer_cert cl = Some cc -> (now < c_nb cc \/ c_na cc < now)%Z ->
+    collector_session H c cl = None.
+  Proof.
+    intros c p cl cc He Hp Hca Hpc Hout.
+    destruct (collector_session H c cl) as [k|] eqn:Hs; [|reflexivity]. exfalso.
+    destruct (collector_client_ca _ _ _ _ He Hp Hca Hs) as (v & cc' & _ & _ & _ & Hpc' & _ & Hva).
+    assert (cc' = cc) by congruence. subst cc'. apply valid_at_iff in Hva. lia.
+  Qed.
 End Contract.
+
+(* ---------------------------------------------------------------- a collector that cannot listen
+   serves nobody; client-CA material from which no certificate parses is such a case (whatever
+   the handshake: no contract needed) *)
+Lemma collector_session_listens : forall H c cl k,
+  collector_session H c cl = Some k -> collector_listens c = true.
+Proof.
+  intros H c cl k. unfold collector_session, collector_listens.
+  destruct (ci_proto c =? "tcp").
+  - destruct (ci_enc c); [|reflexivity]. destruct (create_server_config c); [reflexivity|discriminate].
+  - destruct (ci_proto c =? "udp"); [|discriminate].
+    destruct (ci_enc c); [|reflexivity]. destruct (dtls_server_config c); [reflexivity|discriminate].
+Qed.
+
+Lemma collector_unusable_ca_refuses : forall c p,
+  ci_enc c = true -> ci_proto c = "tcp" -> ci_ca c = Some p -> pool_of p = [] ->
+  collector_listens c = false /\ forall H cl, collector_session H c cl = None.
+Proof.
+  intros c p He Hp Hca Hpool.
+  assert (p = []) as -> by (destruct p; [reflexivity|discriminate]).
+  assert (Hcfg : exists e, create_server_config c = RErr e).
+  { unfold create_server_config. destruct (x509_key_pair (ci_cert c) (ci_key c)); [|eexists; reflexivity].
+    rewrite Hca. eexists; reflexivity. }
+  destruct Hcfg as (e & Hcfg).
+  assert (Hl : collector_listens c = false).
+  { unfold collector_listens. rewrite Hp, He, Hcfg. reflexivity. }
+  split; [exact Hl|]. intros H cl.
+  destruct (collector_session H c cl) as [k|] eqn:Hs; [|reflexivity].
+  apply collector_session_listens in Hs. congruence.
+Qed.
 
 (* decisions: pure *)
 Lemma exporter_decision_never_plain : forall proto, exporter_transport true proto <> TPlain.
@@ -356,8 +419,9 @@ Qed.
 
 (* ---------------------------------------------------------------- regenerated syntax vs model
    Every tls.Config / dtls.Config composite literal of pkg/exporter and pkg/collector sets exactly
-   the fields the model's records carry, with the constants the theorems rely on; no config
-   field is assigned after the literal. *)
+   the fields the model's records carry, with the constants the theorems rely on; a config field
+   assigned after the literal is admitted only where `assignment_ok` says so (optional fields of
+   a crypto/tls config, with the same constants). *)
 Definition fld (fs : list (string * string)) (k : string) : option string :=
   option_map snd (find (fun kv => fst kv =? k) fs).
 Definition has (fs : list (string * string)) (k : string) : bool :=
@@ -391,12 +455,33 @@ Definition literal_ok (l : string * string * list (string * string)) : bool :=
 Definition class_present (pkg typ : string) : bool :=
   existsb (fun l => let '(p, t, _) := l in (p =? pkg) && (t =? typ)) tlscfg_literals.
 
+(* A field assigned after the literal (`config.ClientAuth = ...`): admitted only for the two
+   crypto/tls configs - whose every non-zero field is also dumped from the real value on every
+   run - only for the optional fields of the model's record (the client certificate; client
+   authentication), and only with the constant the theorems rely on.  Any other assignment
+   (InsecureSkipVerify, MinVersion, a callback, ..., or any field of a dtls.Config) fails. *)
+Definition assignment_ok (a : string * string * list (string * string)) : bool :=
+  let '(pkg, typ, fs) := a in
+  if (pkg =? "collector") && (typ =? "tls.Config") then
+    only fs ["ClientAuth"; "ClientCAs"] &&
+    (negb (has fs "ClientAuth") || is_const fs "ClientAuth" c_tls_RequireAndVerifyClientCert) &&
+    (negb (has fs "ClientCAs") || is_expr fs "ClientCAs")
+  else if (pkg =? "exporter") && (typ =? "tls.Config") then
+    only fs ["Certificates"] && is_expr fs "Certificates"
+  else false.
+
+Definition collector_assigns (k : string) : bool :=
+  existsb (fun a => let '(p, t, fs) := a in (p =? "collector") && (t =? "tls.Config") && has fs k) tlscfg_assignments.
+
 Definition tlscfg_ok : bool :=
   forallb literal_ok tlscfg_literals &&
-  match tlscfg_assignments with [] => true | _ => false end &&
+  forallb assignment_ok tlscfg_assignments &&
   class_present "exporter" "tls.Config" && class_present "collector" "tls.Config" &&
   class_present "exporter" "dtls.Config" && class_present "collector" "dtls.Config" &&
-  existsb (fun l => let '(p, t, fs) := l in (p =? "collector") && (t =? "tls.Config") && has fs "ClientAuth") tlscfg_literals.
+  (* client authentication is configured somewhere: ClientAuth together with ClientCAs *)
+  Bool.eqb (collector_assigns "ClientAuth") (collector_assigns "ClientCAs") &&
+  (existsb (fun l => let '(p, t, fs) := l in (p =? "collector") && (t =? "tls.Config") && has fs "ClientAuth") tlscfg_literals
+   || collector_assigns "ClientAuth").
 
 Lemma tlscfg_literals_ok : tlscfg_ok = true.
 Proof. vm_compute. reflexivity. Qed.
@@ -460,6 +545,26 @@ Proof.
   - intros. apply exporter_ok_holds; assumption.
   - intros. apply collector_ok_holds with (H := H); assumption.
 Qed.
+
+Lemma C18_validity_exact_lemma : forall now H, handshake_contract now H ->
+  (forall i t srv sc,
+     ei_tls i = Some t -> ei_proto i = "tcp" \/ ei_proto i = "udp" ->
+     peer_cert srv = Some sc -> (now < c_nb sc \/ c_na sc < now)%Z ->
+     forall c, init_exporting_process H i srv <> ROk c) /\
+  (forall c p cl cc,
+     ci_enc c = true -> ci_proto c = "tcp" -> ci_ca c = Some p ->
+     peer_cert cl = Some cc -> (now < c_nb cc \/ c_na cc < now)%Z ->
+     collector_session H c cl = None).
+Proof.
+  intros now H (A & B & C & D). split.
+  - intros. eapply exporter_refuses_outside_validity; eauto.
+  - intros. eapply collector_refuses_outside_validity with (H := H); eauto.
+Qed.
+
+Lemma C18_unusable_client_ca_lemma : forall c p,
+  ci_enc c = true -> ci_proto c = "tcp" -> ci_ca c = Some p -> pool_of p = [] ->
+  collector_listens c = false /\ forall H cl, collector_session H c cl = None.
+Proof. exact collector_unusable_ca_refuses. Qed.
 
 (* the instance the driver computes with *)
 Lemma C18_reference_lemma : forall now,
